@@ -605,7 +605,15 @@ func c06GenHTTP(r *rand.Rand) *c06HTTPHead {
 	}
 	// host forms
 	var hostVal, carried, form string
-	switch r.IntN(9) {
+	hf := r.IntN(9)
+	if r.IntN(12) == 0 {
+		hf = 9
+	}
+	switch hf {
+	case 9:
+		// an IPv6 literal without brackets (not RFC 7230 conformant, but clients send it)
+		carried = []string{"::1", "2001:db8::1", "2606:4700:20::681A:D1F", "fe80::1", "::ffff:192.0.2.7", "2001:db8::"}[r.IntN(6)]
+		hostVal, form = carried, "v6-bare"
 	case 0:
 		carried = c06RandName(r)
 		hostVal, form = carried, "name"
